@@ -234,6 +234,63 @@ def part2(M):
     return h
 
 
+def honest_exchange(M, be, srv, ident, lt, replay=None):
+    """pair-setup M3..M6 against a conformant accessory (or, with replay=(proof, m6), against a party that only replays what it
+    recorded).  -> (pairing data or None, SRP public value of the controller, (proof, m6))"""
+    gen = M.proto.perform_pair_setup_part2(CODE, hap.IOS_ID, be.ba(srv.salt), be.ba(srv.B))
+    req, expected = gen.send(None)
+    r = dict(req)
+    try:
+        if replay is None:
+            ok, proof = srv.proof_m2(r[T_PUBKEY], r[T_PROOF])
+        else:
+            proof = replay[0]
+        req, expected = send(M, be, gen, [(T_STATE, b"\x04"), (T_PROOF, proof)], expected)
+        if replay is None:
+            K = srv.session_key()
+            enc_key = be.hkdf(K, b"Pair-Setup-Encrypt-Salt", b"Pair-Setup-Encrypt-Info")
+            acc_x = be.hkdf(K, b"Pair-Setup-Accessory-Sign-Salt", b"Pair-Setup-Accessory-Sign-Info")
+            pk = hap.LT_PUB[lt]
+            sig = be.sign(lt, hap.cat(be, acc_x, ident, pk))
+            m6 = be.encrypt(enc_key, b"PS-Msg06", be.b(tlv8_encode([(T_ID, ident), (T_PUBKEY, pk), (T_SIG, sig)])))
+        else:
+            m6 = replay[1]
+        send(M, be, gen, [(T_STATE, b"\x06"), (T_ENC, m6)], expected)
+    except StopIteration as st:
+        return st.value, r[T_PUBKEY], (proof, m6)
+    except Exception:
+        return None, r[T_PUBKEY], None
+    return None, r[T_PUBKEY], None
+
+
+def two_pairings(M):
+    """two pair-setups in one process: nothing of the first may leak into, or be altered by, the second"""
+    def h(ex):
+        be = hap.backend(ex, M.proto)
+        srv1 = be.srp_server(CODE)
+        data1, a1, rec = honest_exchange(M, be, srv1, hap.ACC_ID.encode(), "A")
+        ex.require(data1 is not None, "the first (honest) pairing succeeds")
+        if data1 is None:
+            return ex.observe("first-failed")
+        snapshot = dict(data1)
+        second = ex.choice("second_exchange", ["honest-other-accessory", "replay-of-the-first"])
+        ex.tag(second)
+        if second == "honest-other-accessory":
+            srv2 = hap.SymSrpServer(be, CODE, n=2) if be.sym else be.srp_server(CODE)
+            data2, a2, _ = honest_exchange(M, be, srv2, hap.OTHER_ID.encode(), "B")
+            ex.require(not decide(eq(be, a1, a2)), "the controller's SRP public value is fresh in every exchange")
+            ex.require(data2 is not None and data2["AccessoryPairingID"] == hap.OTHER_ID and data2["AccessoryLTPK"] == hap.LT_PUB["B"].hex(),
+                       "the second pairing returns the second accessory's authenticated identity")
+            ex.require(data2 is not data1 and all(data1.get(k) is v or data1.get(k) == v for k, v in snapshot.items()) and len(data1) == len(snapshot),
+                       "the data returned by the first pairing is not altered by a later pairing")
+        else:
+            # a party that knows neither the setup code nor a long-term key replays the recorded M2 (salt, B), M4 and M6
+            data2, a2, _ = honest_exchange(M, be, srv1, None, None, replay=rec)
+            ex.require(data2 is None, "a replay of an earlier exchange returns no pairing data")
+        return ex.observe("done")
+    return h
+
+
 def build(tier, mutate=None):
     C = copies(mutate)
     R = reals()
@@ -242,6 +299,8 @@ def build(tier, mutate=None):
         Unit("setup/part2-M4-M6", part2(C), part2(R), split=True,
              bounds={"M4 proof": PROOFS, "M6": M6S, "M6 sub-TLV": {"identifier": INNER_ID, "public key": INNER_PK, "signature": INNER_SIG}},
              regions=["m4-rejected", "m6-rejected", "paired"]),
+        Unit("setup/two-pairings", two_pairings(C), two_pairings(R), bounds={"exchanges": 2, "second": "another honest accessory / a replay of the first exchange"},
+             regions=["honest-other-accessory", "replay-of-the-first"]),
     ]
     for u in units:
         u.diff_sample = 100000  # every proved path is also replayed with real SRP / Ed25519 / ChaCha20 on the real library
